@@ -91,7 +91,7 @@ void runResidue(const Opts& o, long idx, CaseLog& log) {
     ezc3d::c3d c;
     { Param r("RATE"); r.set(std::vector<float>(1, 100.f)); c.parameter("POINT", r); Param a("RATE"); a.set(std::vector<float>(1, 200.f)); c.parameter("ANALOG", a); }
     c.point("M1"); c.point("M2"); c.analog("EMG");
-    for (int f = 0; f < 3; ++f) {
+    for (int f = 0; f < (variant == 3 ? 0 : 3); ++f) {      // variant 3: no data section at all (the parameter section is the end of the file)
         ezc3d::DataNS::Frame fr; ezc3d::DataNS::Points3dNS::Points pts;
         for (int i = 0; i < 2; ++i) { ezc3d::DataNS::Points3dNS::Point p; p.name(i ? "M2" : "M1"); p.x(1.1f + f); p.y(2.f * i); p.z(-3.5f); p.residual(0.25f); pts.point(p); }
         ezc3d::DataNS::AnalogsNS::Analogs an;
